@@ -1,10 +1,10 @@
 CONSTANTS
   MaxMoves = 1
-  F <- F_noglueb
+  F <- F_nocachedlevel
   PreSet <- NoPre
   KindSet <- AllKinds
-  Deep = FALSE
-  RaceSet <- NoRace
+  Deep = TRUE
+  RaceSet <- AnyRace
 INIT Init
 NEXT Next
 INVARIANTS GlueSound
